@@ -70,6 +70,16 @@ static void one(entry_t *e, int state, uint64_t c)
         for (int i = 0; i < e->nargs; i++) v[i] = e->a[i].kind == 'S' ? e->a[i].valid : (uint64_t) (uintptr_t) bufs[i];
         if (strstr(e->name, "xts")) v[3] = 16 + rng_below(&r, 49);
         if (strstr(e->name, "gcm") && e->nargs == 10) { v[4] = rng_below(&r, 65); }
+        if (ok_alg && strstr(e->name, "ctx_mgr_submit") && rng_below(&r, 2)) {
+                /* the call under test continues a job that was started while the module was operational:
+                 * FIRST is accepted and drained, then UPDATE or LAST arrives in the state under test */
+                uint64_t pv[10]; memcpy(pv, v, sizeof pv); pv[5] = ISAL_HASH_FIRST;
+                if (call(e, pv)) out_err("%s: preparatory FIRST segment refused while operational", e->name);
+                void *co = NULL; uint64_t fv[10] = { v[0], (uint64_t) (uintptr_t) &co };
+                for (int k = 0; k < 40; k++) { if (call(e + 1, fv)) out_err("%s: preparatory flush failed", e->name); if (!co) break; }
+                v[5] = rng_below(&r, 2) ? ISAL_HASH_UPDATE : ISAL_HASH_LAST;
+                out_count("fips_midjob_submits", 1);
+        }
         for (int i = 0; i < e->nargs; i++) if (bufs[i]) memcpy(copies[i], bufs[i], e->a[i].size);
         /* enter the state */
         n_aes = n_sha = resolved_before_selftest = 0;
@@ -90,6 +100,13 @@ static void one(entry_t *e, int state, uint64_t c)
         cur_label[0] = 0;
         for (int k = 0; k < 4; k++) if (flipped >> k & 1) *kat[k] ^= 0x01;            /* the fault was transient */
         int resolved = any_slot_resolved();
+        { static int ncell;     /* evidence: the first cells of this worker, written out */
+          static volatile uint32_t *status_var; if (!status_var) status_var = sym_addr("self_test_status");
+          if (ncell < 40 && status_var) { ncell++; clog_on = 1;
+                clog_title("one call per cell (entry point x self-test state): status word and wrap mode set, all dispatch slots re-armed, arguments snapshotted, then the call");
+                clog_event("%s in state '%s'%s: returned %d; self-tests entered AES %d / SHA %d time(s); dispatched routine entered: %s; status word afterwards %u", e->name, st_name[state],
+                           flipped ? " (known-answer data of the real self-tests corrupted)" : "", rc, n_aes, n_sha, resolved ? isal_dispatch_entries[resolved - 1].name : "none", *status_var);
+                clog_on = 0; } }
         out_count("fips_calls", 1);
         feat(mix64(0xf19, mix64((uint64_t) (e - entries), (uint64_t) state * 4 + (uint64_t) wrap_mode)));
         int must_refuse = !ok_alg || state == ST_FAILED || state == ST_NOTRUN_FAIL || state == ST_NOTRUN_NATFAIL;
